@@ -1,0 +1,34 @@
+//go:build verif
+
+package openapi3
+
+// Contracts for the lookup helpers (C06, C08). Comment-only; read by /verif/engine (govc).
+
+//@ spec rval(r *Responses, key string) *ResponseRef := r == nil ? nil : r.m[key]
+
+//@ func (*Responses).Len
+//@   modifies nothing
+//@   ensures result == (responses == nil ? 0 : len(responses.m))
+//@   tag C08 C10
+
+//@ func (*Responses).Value
+//@   modifies nothing
+//@   ensures result == rval(responses, key)
+//@   tag C08 C10
+
+// OpenAPI 3.0.3 "Responses Object": an explicit code takes precedence over a range definition
+// 1XX..5XX; HTTP status codes are three decimal digits (RFC 7231 section 6).
+//@ spec classKey(n int) string := digit(n/100) + "XX"
+//@ spec statusOf(r *Responses, n int) *ResponseRef :=
+//@     rval(r, itoa3(n)) != nil ? rval(r, itoa3(n)) : ((100 <= n && n <= 599) ? rval(r, classKey(n)) : nil)
+
+//@ func (*Responses).Status
+//@   requires 0 <= status && status <= 999
+//@   modifies nothing
+//@   ensures result == statusOf(responses, status)
+//@   tag C08 C10
+
+//@ func (*Responses).Default
+//@   modifies nothing
+//@   ensures result == rval(responses, "default")
+//@   tag C08 C10
